@@ -13,19 +13,20 @@ NOPS = 10
 def conditions(tier, seed):
     t = 300 if tier == 'quick' else 3000
     out = []
-    ni = 3 if tier == 'quick' else 4
-    ln = 2 if tier == 'quick' else 3
-    out.append(Cond('query_eq_ref_all_links', 'c09_query.py', dict(ni=ni, len=1, first=8, plfree=True), timeout=t,
-                    bound='where_eq on the referential attribute, every subset of linked instances, every deleted instance',
-                    symbolic=['x*, y*, b*, pv, k1'], case_split=['dead', 'pl'], twin=False))
-    out.append(Cond('query_len0', 'c09_query.py', dict(ni=ni, len=0, first=0, plfree=True), timeout=t,
-                    bound='no operator', symbolic=['x*, y*, b*, pv'], case_split=['dead', 'pl']))
-    for f in range(NOPS):
-        out.append(Cond('query_first%d' % f, 'c09_query.py', dict(ni=ni, len=ln, first=f), timeout=t,
-                        bound='%d instances, operator sequences of length 1..%d starting with operator %d' % (ni, ln, f),
-                        symbolic=['x0..x3', 'y0..y3', 'b0..b3', 'k1', 'k2', 'thr', 'pv (all unbounded)'],
-                        case_split=['si (operator sequence)', 'dead in {none, second instance}'],
-                        twin=(f in (0, 4))))
+    plans = [(3, 2)] if tier == 'quick' else [(4, 2), (3, 3)]
+    for ni, ln in plans:
+        tag = '' if tier == 'quick' else '_n%d_l%d' % (ni, ln)
+        out.append(Cond('query_eq_ref_all_links' + tag, 'c09_query.py', dict(ni=ni, len=1, first=8, plfree=True), timeout=t,
+                        bound='where_eq on the referential attribute, every subset of linked instances, every deleted instance',
+                        symbolic=['x*, y*, b*, pv, k1'], case_split=['dead', 'pl'], twin=False))
+        out.append(Cond('query_len0' + tag, 'c09_query.py', dict(ni=ni, len=0, first=0, plfree=True), timeout=t,
+                        bound='no operator', symbolic=['x*, y*, b*, pv'], case_split=['dead', 'pl']))
+        for f in range(NOPS):
+            out.append(Cond('query_first%d%s' % (f, tag), 'c09_query.py', dict(ni=ni, len=ln, first=f), timeout=t,
+                            bound='%d instances, operator sequences of length 1..%d starting with operator %d' % (ni, ln, f),
+                            symbolic=['x0..x3', 'y0..y3', 'b0..b3', 'k1', 'k2', 'thr', 'pv (all unbounded)'],
+                            case_split=['si (operator sequence)', 'dead in {none, second instance}'],
+                            twin=(f in (0, 4))))
     templates = ['a_B', 'b_A', 'setA_B', 'genA_B', 'listB_A', 'a_B_succ', 'b_prec_prec', 'b_succ', 'a_B_succ_A_B',
                  'a_D', 'd_A', 'a_L_D', 'l_A', 'setA_D_A', 'subtype', 'filter_gt', 'filter_eq', 'filter_order',
                  'none', 'invalid']
